@@ -210,6 +210,9 @@ def gen_request(rng):
         odd = [b for b in range(1, 256) if b not in (0x09, 0x0A, 0x0B, 0x0C, 0x0D, 0x20, 0x3F)]
         pos = rng.randrange(1, len(path) + 1)
         path = path[:pos] + bytes(rng.choice(odd) for _ in range(rng.randrange(1, 4))) + path[pos:]
+    if rng.random() < 0.1:
+        # an absolute URI embedded in an origin-form path (redirectors, proxies), next to '#' and an empty first segment
+        path = path.rstrip(b"/") + rng.choice([b"/http://example.com/a", b"/redirect/https://e.org/x#top", b"/p/ftp://h/f#a#b", b"/u=a+b://c"])
     r = rng.random()
     if r < 0.08:
         path = b"/" + path  # an empty first segment: "//api/v1" is a valid origin-form path, not a network location
